@@ -91,8 +91,9 @@ theorem C10_harvest_conservation [Inhabited α] (E : Env α) (c : FCtx α) (hlt 
   · rename_i ids s hrun
     simp only [Except.ok.injEq, Prod.mk.injEq] at h
     obtain ⟨rfl, _⟩ := h
-    have hG0 : GInv ({ stream := stream } : HState α) := ⟨fun id hid => by simp at hid, fun p hp => by simp at hp⟩
-    obtain ⟨⟨_, hG, hgood⟩, hcons⟩ := (harvest_all E c hlt 100000).1 root _ ids s hsh hG0 hrun
+    have hG0 : GInv E c root ({ stream := stream } : HState α) :=
+      ⟨fun id hid => by simp at hid, fun p hp => by simp at hp, fun id hid => by simp at hid⟩
+    obtain ⟨⟨_, hG, hgood⟩, hcons⟩ := (harvest_all E c hlt root 100000).1 root _ ids s hsh Reach.refl hG0 hrun
     rcases hcons (by simp) with rfl | ⟨N, hN, hsum⟩
     · left; simp
     · right
@@ -105,6 +106,31 @@ theorem C10_harvest_conservation [Inhabited α] (E : Env α) (c : FCtx α) (hlt 
         rw [List.map_map]; rfl
       rw [e2] at e
       rw [e]; exact hsum
+
+/-- T10 (shape)  every bucket `harvest` returns has exactly as many ranges as the tree has columns, and each range is
+the released range (`bucket_intervals`) — for that very column — of a node reachable from the tree (a node of the tree,
+or of a lower-dimensional tree through sub-nodes) that is a branch or a leaf passing the low-count filter. -/
+theorem C10_bucket_ranges [Inhabited α] (E : Env α) (c : FCtx α) (hlt : 0 ≤ c.ap.supp.lt) (root : Node α)
+    (hsh : Shape root) (stream : List Nat) (bs : List (BCell α)) (n : Nat) (h : harvest E c root stream = .ok (bs, n)) :
+    ∀ b ∈ bs, b.ivs.length = root.data.comb.length ∧
+      ∀ pos < b.ivs.length, RangeOK E c root (root.data.comb.getD pos 0) (b.ivs.getD pos default) := by
+  unfold harvest at h
+  split at h
+  · cases h
+  · rename_i ids s hrun
+    simp only [Except.ok.injEq, Prod.mk.injEq] at h
+    obtain ⟨rfl, _⟩ := h
+    have hG0 : GInv E c root ({ stream := stream } : HState α) :=
+      ⟨fun id hid => by simp at hid, fun p hp => by simp at hp, fun id hid => by simp at hid⟩
+    obtain ⟨⟨_, hG, hgood⟩, _⟩ := (harvest_all E c hlt root 100000).1 root _ ids s hsh Reach.refl hG0 hrun
+    intro b hb
+    obtain ⟨id, hid, rfl⟩ := List.mem_map.mp (List.mem_filter.mp hb).1
+    obtain ⟨hv, ho⟩ := hgood.2 id hid
+    have hok := hG.2.2 id hv
+    have hown : (s.cells[id]!).owner.1 = root.data.comb := ho.1
+    unfold CellOK at hok
+    rw [hown] at hok
+    exact hok
 
 /-- T10.b for the trees a forest hands out: whenever `Forest.__init__` and `Forest.get_tree(comb)` finish and the harvest
 of that tree finishes, the buckets are none at all, or add up to the tree's released root count or one less. -/
